@@ -25,6 +25,7 @@ def run(chk, F):
     chk.guard("cycle-guard", "Resolver::visit", lambda: L.visit_structure(chk, F))
     chk.guard("cycle-guard", "load_defs", lambda: L.alias_cycle_guard(chk, F))
     chk.guard("errors-reported", "load_defs", lambda: L.errors_reported(chk, F))
+    chk.guard("errors-reported", "load_defs inserts", lambda: L.input_inserts_checked(chk, F))
     chk.guard("temporaries-cleared", "load_defs", lambda: shared_rules.temporaries_cleared(chk, F))
     chk.guard("definitions-only-for-loaded-units", "load_defs", lambda: L.definitions_only_for_loaded(chk, F))
     chk.guard("syntax-problems-returned", "gnu_units::parse", lambda: syntax_problems(chk, F))
